@@ -3,3 +3,14 @@ from checklib.props_sio import sio_run
 # C08: "... and as seen through a crew's reported emissions": the sio crew run compares Result.Emitted, message by
 # message, with the batches the addressed recorder machines owe (model) and checks it against Go's own processing order
 EXTRA_RUNS = {"C08": [sio_run("c14", "c14_mismatches", "c14_violations", "c14_nontrivial", (300, 6000))]}
+
+# C18 / C10: "one compiled source may be executed by many goroutines at once with the same results as alone" and the
+# permanent bindings each machine is given back are its own: the shared-spec run with walkers that each carry their own
+# permanent bindings over specifications whose actions and guards delete and replace them (race-detector build)
+from checklib.props_jsrt import race_runner
+_share_perm = dict(component="specshare", require="Corr.SpecCorr", require_vo="Corr/SpecCorr.vo", race=True, runner=race_runner,
+                   n=dict(quick=40, thorough=300), shard=20, search_rounds=1, timeout=dict(quick=240, thorough=1500),
+                   opts=dict(procs="16+2", perm="1"), opts_thorough=dict(procs="1+2+4+16"),
+                   evals=dict(M="share_mismatches", V="c12_share_violations", NT="c12_share_nontrivial"), counts=("NT",))
+EXTRA_RUNS["C18"] = [_share_perm]
+EXTRA_RUNS["C10"] = [dict(_share_perm)]
